@@ -5,6 +5,11 @@ from harness.wire import Exn
 PROP = "C08"
 THEOREM_FILE = "Props/C08.v"
 EXTRA_THEOREM_FILES = ["Props/C08_src.v"]     # source tie: translated source = model (DESIGN 5.1b)
+EXTRA_THEOREM_FILES.append("Props/C08_src_b.v")     # SRCF: second part of the source tie (strategy/eui48, eui64 functions, EUI accessors)
+EXTRA_THEOREM_FILES.append("Props/C08_src_c.v")     # SRCF: third part (int_to_str, dialect handling, __str__, format)
+EXTRA_THEOREM_FILES.append("Props/C08_src_d.v")     # SRCF: fourth part (valid_str, str_to_int, _get_match_result)
+EXTRA_THEOREM_FILES.append("Props/C08_src_e.v")     # SRCF: fifth part (EUI.__init__, _set_value)
+EXTRA_THEOREM_FILES.append("Props/C08_src_f.v")     # SRCF: sixth part (EUI.__setstate__, IAB.split_iab_mac)
 RULE = ("objects: 11 built-in dialects + 7 user subclasses (custom separator / word_fmt / word size) x boundary values "
         "(0, max, 2^k, 2^k-1, a single non-zero octet 01/80/ff at each position, decimal-only digit patterns, both IAB "
         "OUIs) and random values x every accessor and conversion; every index -n-1..n and word assignment at both ends "
